@@ -238,6 +238,21 @@ func reuseSubs(subs []submission, which int) []submission {
 	return out
 }
 
+// framedSubs: every canonical POST of the case once more as a chunked stream (no Content-Length)
+func framedSubs(subs []submission, k int) []submission {
+	var out []submission
+	for _, s := range subs {
+		if s.HTTP == nil || s.Role != "canonical" || s.HTTP.Method != "POST" {
+			continue
+		}
+		e := *s.HTTP
+		e.Framing = []string{"chunked-3", "chunked-1", "chunked-all"}[k%3]
+		out = append(out, submission{Transport: s.Transport, Role: "alias", Label: e.Framing, HTTP: &e})
+		k++
+	}
+	return out
+}
+
 func withNulls(o *opReq) *J {
 	kvs := []kv{{"query", jstr(o.Query)}}
 	if o.Vars != nil {
@@ -799,6 +814,7 @@ func main() {
 						t := &table{}
 						subs := canonical(t, o, ids(idx))
 						subs = append(subs, reuseSubs(subs, idx%2)...)
+						subs = append(subs, framedSubs(subs, idx)...)
 						return w.run(cfg, feat, o, t, subs)
 					})
 				}
@@ -918,6 +934,9 @@ func main() {
 				}
 				if !o.Sub && r.Chance(1, 8) {
 					subs = append(subs, *rawGetSub(r.Intn(len(rawVarTexts)), rng.Pick(r, []string{"variables", "variables", "extensions"})))
+				}
+				if r.Chance(1, 4) {
+					subs = append(subs, framedSubs(subs[:len(canonical(&table{}, o, ids(0)))], r.Intn(3))...)
 				}
 				if r.Chance(1, 4) {
 					subs = append(subs, reuseSubs(subs[:len(canonical(&table{}, o, ids(0)))], r.Intn(2))...)
